@@ -12,7 +12,7 @@ from coqterm import *
 from props.c14 import STRS, IPS, SIZES, BAD_IPS, _impl
 
 TRANSLATORS = ["enums", "codec", "defender", "dispatch"]
-COQ_FILES = ["Props/C15.v", "Obl/CodecDescOk.v", "Obl/EnumsOk.v"]
+COQ_FILES = ["Props/C15.v", "Props/C15_coord.v", "Obl/CodecDescOk.v", "Obl/EnumsOk.v"]
 
 
 def rand_ip(gc, rng):
